@@ -12,3 +12,5 @@ import VibeProof.Props.C33
 #print axioms VibeProof.C33.C33_drop_column_removes_exactly
 #print axioms VibeProof.C33.C33_registries_step
 #print axioms VibeProof.C33.C33_registries_agree
+#print axioms VibeProof.C33.stTable_other
+#print axioms VibeProof.C33.C33_rebuild_reads_own_table
